@@ -218,7 +218,10 @@ OPS = ['write_parameters', 'write_parameter_ranges', 'extract_parameters', 'filt
 @st.composite
 def machine_cases(draw):
     c = draw(fit_cases(formats2=('v2wav',), formats3=('v2wav',), max_lines=4))
-    c['selector'] = ['A', 0]
+    # the results the post-processing calls work on: everything, or what an output selector left of it (possibly no fit at
+    # all for some source - such a record is still a record)
+    c['selector'] = draw(st.sampled_from([['A', 0], ['A', 0], ['A', 0], ['N', 0], ['N', 2], ['C', 0.55], ['C', 21.7], ['E', 0.55],
+                                          ['E', 3.3], ['D', 3.3], ['F', 0.55]]))
     c['n_data_min'] = min(c['n_data_min'], 2)
     c['output_convolved'] = draw(st.booleans())
     return c
@@ -282,6 +285,10 @@ class PostprocMachine(TracedMachine()):
 
     def _call(self, op, sel, chi, use_cpd, sed_type):
         import sedfitter
+        if op == 'filter_output' and any(len(r.chi2) == 0 for r in self.records):
+            # its criterion is the best chi^2 of each source (C18: sources with at least one fit); the other functions list a
+            # source without fits as just that
+            op = 'write_parameters'
         self.nstep += 1
         results = []
         for form, arg in self.forms():
